@@ -34,6 +34,7 @@ func runC06(c *Ctx) {
 	c06EmptySelectionSkips(c)
 	c06SuppressorsDisjoin(c)
 	c06OptionsFullPath(c)
+	ruleIsEmptyCovers(c, "ISEMPTY-COVERS")
 	p := c.P
 	c.Rule("CATEGORY-NESTING", "MINIMAL ⊆ BASIC ⊆ STANDARD (and DEFAULT) in every spec version", 60)
 	c.Rule("RESOLUTION-PIPELINE", "use/except/ignore_only pass category expansion and un-deprecation before they are consumed", 3)
